@@ -18,7 +18,7 @@ const BURST_KEYS: [&str; 40] = [
 /// Capacity cases: many distinct keys carrying the same kind of action, all
 /// pressed (nearly) at once, then all released.
 fn burst_case(t: &mut Tape) -> GCase {
-    let kind = t.pick(7);
+    let kind = t.pick(8);
     let n = match kind {
         0 | 6 => t.range(33, 40), // queue overflow
         1 => t.range(22, 30),     // > 64 states with 3 keys each
@@ -34,7 +34,7 @@ fn burst_case(t: &mut Tape) -> GCase {
     cfg.push_str(")\n(defsrc ");
     cfg.push_str(&keys.join(" "));
     cfg.push_str(")\n(deflayer l0");
-    let outs = ["x", "y", "z", "lsft", "lctl", "lalt", "rsft", "ralt", "lmet"];
+    let outs = if kind == 7 { ["x", "y", "z", "u", "v", "w", "q", "r", "s"] } else { ["x", "y", "z", "lsft", "lctl", "lalt", "rsft", "ralt", "lmet"] };
     let mut timeouts = vec![];
     let mut macro_ticks = 0u64;
     let mut features = vec!["burst".to_string()];
@@ -67,8 +67,19 @@ fn burst_case(t: &mut Tape) -> GCase {
             }
             5 => {
                 macro_ticks += 40;
-                let v = ["macro-release-cancel", "macro-cancel-on-press", "macro-repeat", "macro"][i % 4];
+                // any variant at any position (the fifth concurrent macro evicts the oldest: which
+                // variant does the evicting matters)
+                let v = ["macro-release-cancel", "macro-cancel-on-press", "macro-repeat", "macro", "macro-repeat-release-cancel"][t.pick(5)];
                 format!("({v} A-({o} 8 {o2}) 4 {o3})")
+            }
+            7 => {
+                // only variants that never cancel other macros (a cancel clears every macro's
+                // keys and would hide a key left behind by an evicted macro)
+                macro_ticks += 40;
+                let v = ["macro", "macro-repeat"][t.pick(2)];
+                // a modifier of its own per macro: a release by another macro must not clean up
+                let m = ["S-", "C-", "A-", "M-", "RS-", "RC-", "RA-", "RM-"][i % 8];
+                format!("({v} {m}({o} 8 {o2}) 4 {o3})")
             }
             _ => match i % 4 {
                 0 => format!("(tap-hold 0 12 {o} {o2})"),
